@@ -370,7 +370,7 @@ func run(c *mon.Ctx) {
 			}
 		}
 	})
-	c.Stream("random", c.N(20000, 20000000), func(i int, r *gen.Rand) {
+	c.Stream("random", c.N(20000, 60000000), func(i int, r *gen.Rand) {
 		m := ref.GenTSPacket(r, 0, -1)
 		partition(c, &m)
 		setPayload(c, &m, r.Intn(201), r)
